@@ -32,7 +32,14 @@ fn main() {
             std::process::exit(2);
         }
     };
-    let code = props::run(id, tier);
+    // a panic that escapes every guard is a failure of the machinery (exit 2), never a verdict
+    let code = match std::panic::catch_unwind(|| props::run(id, tier)) {
+        Ok(c) => c,
+        Err(_) => {
+            println!("MACHINERY: the check was aborted by a panic outside its guards ({})", common::last_panic_loc());
+            2
+        }
+    };
     std::process::exit(code);
 }
 
